@@ -3,6 +3,7 @@
 #[cfg(kani)]
 mod /*@LATMOD@*/verif_c13_lat {
     use super::*;
+    use crate::analysis::created::HasWord;
     use crate::config::Config;
     use crate::dic::character_category::CharacterCategory;
     use crate::dic::connect::ConnectionMatrix;
@@ -31,6 +32,49 @@ mod /*@LATMOD@*/verif_c13_lat {
             Ok(1)
         }
     }
+
+    /// One call of provide_oovs at position 0 of "ab": every word the provider returns is inserted into the lattice and recorded in the
+    /// created-length set - whatever the word-start flags of the following characters are and whatever was created before.
+    //@H /*@PROVNAME@*/c13_provide_oovs_recorded
+    #[kani::proof]
+    #[kani::unwind(6)]
+    fn /*@PROVNAME@*/c13_provide_oovs_recorded () {
+        let bow: [bool; 2] = kani::any();
+        let buf = InputBuffer::verif_ascii_bow("ab", &bow);
+        let conn = ConnectionMatrix::verif_from_vec(vec![0i16; 1], 1, 1);
+        let lexicon = LexiconSet::new(Lexicon::verif_no_keys(), 0);
+        let providers: Vec<Box<dyn OovProviderPlugin + Sync + Send>> = Vec::new();
+        let mut lattice = Lattice::default();
+        lattice.reset(2);
+        let mut scratch: Vec<Node> = Vec::with_capacity(4);
+        // what the dictionary lookup created before: nothing, or words of one arbitrary length
+        let before = if kani::any() { CreatedWords::default() } else {
+            let l: i64 = kani::any();
+            kani::assume(l >= 1 && l <= 2);
+            CreatedWords::single(l)
+        };
+        ASKED.store(0, Ordering::Relaxed);
+        let r = {
+            let mut b = LatticeBuilder { node_buffer: &mut scratch, lattice: &mut lattice, matrix: &conn, input: &buf, lexicon: &lexicon, oov_providers: &providers };
+            b.provide_oovs(0, before, &Eager)
+        };
+        assert!(r.is_ok());
+        assert!(ASKED.load(Ordering::Relaxed) == 1, "the provider was asked at the position");
+        assert!(lattice.has_previous_node(1), "the word the provider returned is in the lattice (a word ends at 1)");
+        if let Ok(after) = &r {
+            assert!(!after.is_empty() && after.has_word(1) != HasWord::No, "and it is recorded as created");
+            assert!(*after == before.add_word(1), "nothing else is recorded");
+        }
+        kani::cover!(!bow[1] && before.is_empty(), "the returned word ends before a character that cannot start a word, nothing created before");
+        std::mem::forget(r);
+        std::mem::forget(lattice);
+        std::mem::forget(scratch);
+        std::mem::forget(providers);
+        std::mem::forget(lexicon);
+        std::mem::forget(conn);
+        std::mem::forget(buf);
+    }
+    //@END
 
     //@H /*@LATNAME@*/c13_lattice_providers
     #[kani::proof]
